@@ -198,6 +198,8 @@ def check_iterative_owner(ctx, an, f, g, reach, pname):
 
 def check(ctx):
     an, model = ctx.an, ctx.model
+    from .c02 import check_container_items_encoded
+    check_container_items_encoded(ctx)      # secrets / digests held as items of typed lists and dicts
     KeyFile = model.cls("KeyFile")
     Config = model.cls("Config")
     encrypt = model.method("KeyFile", "encrypt")
